@@ -1,6 +1,7 @@
 package props
 
 import (
+	"runtime"
 	"errors"
 	"fmt"
 	"math/rand"
@@ -27,6 +28,7 @@ func init() {
 	sim.RegisterKind("tr-wrong-response", "C12")
 	sim.RegisterKind("tr-return-instant", "C12")
 	sim.RegisterKind("tr-hang", "C12")
+	sim.RegisterKind("tr-completed-twice", "C12")
 	sim.RegisterKind("tr-left-in-table", "C12")
 	sim.RegisterKind("tr-unexpected-result", "C12")
 }
@@ -511,6 +513,108 @@ func (x *c12) caseSyncResponse() {
 	x.rec.SetSample(map[string]any{"kind": "sync-response"})
 }
 
+// caseRtxWriteRace: the response arrives while retransmission k is being written (the client holds
+// its transaction lock across that write), and the write then succeeds or fails. Whichever of the
+// two wins, the transaction completes exactly once, nothing stays locked, and a later transaction
+// that itself needs a retransmission still terminates.
+func (x *c12) caseRtxWriteRace() {
+	sends, fail := schedule(x.rto)
+	k := 1 + x.rng.Intn(maxRtx-1) // a retransmission, not the initial write
+	failWrite := x.rng.Intn(3) != 0
+	msg, tid := x.request()
+	x.srv.SetHandler(nil)
+	var mu sync.Mutex
+	writes := 0
+	x.rc.Conn.WriteHook = func(b []byte, _ net.Addr) (int, error, bool) {
+		if m, err := wire.ParseSTUN(b); err != nil || m.TID != tid {
+			return 0, nil, false
+		}
+		mu.Lock()
+		i := writes
+		writes++
+		mu.Unlock()
+		if i != k {
+			return 0, nil, false
+		}
+		x.rc.Conn.Inject(response(tid, "during-rtx"), x.srv.Addr)
+		// the write is slow in scheduler terms only (a sleep here would stall the virtual clock
+		// behind the client's own lock): give the read loop every chance to handle the response
+		for j := 0; j < 300; j++ {
+			runtime.Gosched()
+		}
+		if failWrite {
+			return 0, errors.New("injected write error"), true
+		}
+
+		return 0, nil, false
+	}
+	t0 := time.Now()
+	out := make(chan trResult, 2)
+	x.perform(msg, out)
+	select {
+	case res := <-out:
+		if res.err == nil && res.tag != "during-rtx" {
+			x.rec.Violate("tr-wrong-response", "rtx-write-race", "returned tag %q", res.tag)
+		}
+		if d := res.at.Sub(t0); d != sends[k] {
+			x.rec.Violate("tr-return-instant", fmt.Sprintf("rtx-write-race/k=%d", k), "response delivered during retransmission %d (+%v, write fails=%v): PerformTransaction returned at +%v err=%v", k, sends[k], failWrite, d, res.err)
+		}
+		if !failWrite && res.err != nil {
+			x.rec.Violate("tr-unexpected-result", "rtx-write-race", "response delivered during a successful retransmission %d, PerformTransaction returned %v", k, res.err)
+		}
+		x.rec.FP("rtx-write-race/k=%d/fail=%v/got-err=%v", k, failWrite, res.err != nil)
+	case <-time.After(fail + 10*time.Second):
+		x.rec.Violate("tr-hang", "rtx-write-race", "PerformTransaction did not return (response during retransmission %d, write fails=%v)", k, failWrite)
+
+		return
+	}
+	x.rc.Conn.WriteHook = nil
+	time.Sleep(time.Millisecond) // the writer returns from its hook and releases the client's lock
+	x.checkTable(fmt.Sprintf("rtx-write-race/k=%d/fail=%v", k, failWrite))
+	if x.rec.Poisoned() {
+		return
+	}
+	time.Sleep(fail + 5*time.Second)
+	select {
+	case res := <-out:
+		x.rec.Violate("tr-completed-twice", "rtx-write-race", "a second result was produced for the same transaction: %q %v", res.tag, res.err)
+	default:
+	}
+	wantN := k + 1
+	if failWrite {
+		wantN = k
+	}
+	if got := x.arrivals(tid, t0); len(got) != wantN {
+		x.rec.Violate("rtx-after-completion", "rtx-write-race", "%d transmissions reached the server %v, want %d", len(got), got, wantN)
+	}
+	// a follow-up transaction whose first transmission is lost: it needs the retransmission path
+	msg2, tid2 := x.request()
+	seen := 0
+	x.srv.SetHandler(func(s *sim.ScriptedServer, from *net.UDPAddr, ev sim.SrvEvent) {
+		if ev.Msg == nil || ev.Msg.TID != tid2 {
+			return
+		}
+		seen++
+		if seen == 2 {
+			s.Send(from, response(tid2, "follow-up"), 0)
+		}
+	})
+	t1 := time.Now()
+	x.perform(msg2, out)
+	select {
+	case res := <-out:
+		if res.err != nil || res.tag != "follow-up" || res.at.Sub(t1) != sends[1] {
+			x.rec.Violate("tr-wrong-response", "rtx-write-race/follow-up", "follow-up transaction: tag %q err %v at +%v (want the answer to its 2nd transmission at +%v)", res.tag, res.err, res.at.Sub(t1), sends[1])
+		}
+	case <-time.After(fail + 10*time.Second):
+		x.rec.Violate("tr-hang", "rtx-write-race/follow-up", "a transaction after the raced one did not return")
+
+		return
+	}
+	x.checkTable("rtx-write-race/follow-up")
+	x.rec.SetSample(map[string]any{"kind": "rtx-write-race", "k": k, "write_fails": failWrite, "rto": x.rto.String()})
+}
+
 // caseIgnoreResult: a fire-and-forget transaction (ignoreResult) follows the same schedule, stops at
 // the first matching response and leaves the table empty, too.
 func (x *c12) caseIgnoreResult() {
@@ -570,7 +674,9 @@ func runC12(t *testing.T, rng *rand.Rand, rec *sim.Rec, tier string, caseNo int)
 	}
 	x := newC12(t, rng, rec, rto)
 	defer x.close()
-	switch (caseNo - lossCases) % 7 {
+	switch (caseNo - lossCases) % 8 {
+	case 7:
+		x.caseRtxWriteRace()
 	case 6:
 		x.caseIgnoreResult()
 	case 0:
